@@ -597,6 +597,51 @@ def run(ctx):
                    "the checkpoint call comes after every loop-carried write of its iteration",
                    f"state written after the checkpoint call and before the next iteration: {bad[:3]} (the checkpoint does not describe the state the next iteration starts from)", disc=disc)
 
+    # ---- the preconditioning transform is refitted in every iteration and is not part of the checkpoint: each fit must start from
+    #      scratch (a function of its input and the constructor's settings), or a resumed run -- which starts with a new transform -- diverges
+    BT = repo.cls("aspire.transforms:BaseTransform")
+    uses_fit = [f for f in repo.all_functions() if f.ident.startswith("aspire.samplers") and any(
+        isinstance(n, ast.Call) and isinstance(n.func, ast.Attribute) and n.func.attr == "fit" and isinstance(n.func.value, ast.Attribute) and n.func.value.attr == "preconditioning_transform"
+        for n in walk_no_nested(f.node))]
+    n_fit = 0
+    if uses_fit:
+        for tc in repo.subclasses(BT, strict=False):
+            fm = tc.methods.get("fit")
+            if fm is None or not fm.params:
+                continue
+            n_fit += 1
+            me_ = fm.params[0]
+            ex_, wr_ = attr_exposed(repo, fm.node.body, me_, tc)
+            kept = sorted(ex_ & wr_)
+            tainted = set(fm.params[1:])
+            for _ in range(3):
+                for n in walk_no_nested(fm.node):
+                    if isinstance(n, ast.Assign) and any(isinstance(x, ast.Name) and x.id in tainted for x in ast.walk(n.value)):
+                        tainted |= {x.id for t in n.targets for x in ast.walk(t) if isinstance(x, ast.Name) and isinstance(x.ctx, ast.Store)}
+            bad_ = []
+            for a_ in kept:
+                for n in walk_no_nested(fm.node):
+                    dep = lambda e: any(isinstance(x, ast.Name) and x.id in tainted for x in ast.walk(e))  # noqa: E731
+                    if isinstance(n, ast.Assign) and dep(n.value) and any(isinstance(t, ast.Attribute) and isinstance(t.value, ast.Name) and t.value.id == me_ and t.attr == a_
+                                                                        for tg in n.targets for t in ast.walk(tg) if isinstance(getattr(t, "ctx", None), ast.Store)):
+                        bad_.append((a_, n, "is assigned from the data"))
+                    if isinstance(n, ast.AugAssign) and isinstance(n.target, ast.Attribute) and isinstance(n.target.value, ast.Name) and n.target.value.id == me_ and n.target.attr == a_ and dep(n.value):
+                        bad_.append((a_, n, "is updated with the data"))
+                    if isinstance(n, ast.Call) and isinstance(n.func, ast.Attribute) and isinstance(n.func.value, ast.Attribute) and isinstance(n.func.value.value, ast.Name) \
+                            and n.func.value.value.id == me_ and n.func.value.attr == a_ and n.func.attr in ("fit", "partial_fit", "update", "train", "step", "append", "extend", "add") \
+                            and any(dep(x) for x in list(n.args) + [k.value for k in n.keywords]):
+                        bad_.append((a_, n, f"is trained further with .{n.func.attr}(data)"))
+            if bad_:
+                a_, n, how = bad_[0]
+                ctx.refute("C11.refit", fm.ident, loc_of(fm, n),
+                           f"{tc.name}.fit reads self.{a_} before storing it and self.{a_} {how}: what a fit produces depends on the fits before it. The samplers refit the "
+                           "preconditioning transform in every iteration and the transform is not in the checkpoint, so a resumed run (new transform, first fit) does not continue "
+                           "the uninterrupted one", disc=a_)
+            else:
+                ctx.prove("C11.refit", fm.ident, loc_of(fm), f"{tc.name}.fit starts from scratch: no attribute is both read before its first store and updated from the data"
+                          + (f" (kept between fits but independent of the data: {kept})" if kept else ""))
+        ctx.floor("transform fit methods analysed for history-free refitting", n_fit, 5)
+
     # ---- source dispatch
     brf = base.methods.get("restore_from_checkpoint")
     evb, rb = fold(repo, brf, base, max_depth=1, no_inline={"aspire.samplers.base:Sampler.load_checkpoint_from_file", "aspire.samples:BaseSamples.from_samples"})
@@ -770,6 +815,9 @@ _B = "src/aspire/samplers/smc/base.py"
 _SB = "src/aspire/samplers/base.py"
 _A = "src/aspire/aspire.py"
 MUTANTS = [
+    M("flow preconditioning keeps training the flow of the previous iteration", "src/aspire/transforms.py", "self.flow = self._FlowClass(\n            dims=len(self.parameters),\n            device=self.device,\n            data_transform=self._data_transform,\n            **self.flow_kwargs,\n        )",
+      "if self.flow is None:\n            self.flow = self._FlowClass(\n                dims=len(self.parameters),\n                device=self.device,\n                data_transform=self._data_transform,\n                **self.flow_kwargs,\n            )", "C11.refit"),
+    M("affine preconditioning averages the new mean with the previous one", "src/aspire/transforms.py", "self._mean = x.mean(0)", "self._mean = x.mean(0) if self._mean is None else 0.5 * (self._mean + x.mean(0))", "C11.refit"),
     M("checkpoint written from an interrupt handler around the mutation step", _B, "samples = self.mutate(samples, beta)\n                if store_sample_history:",
       "try:\n                    samples = self.mutate(samples, beta)\n                except KeyboardInterrupt:\n                    maybe_checkpoint(force=True)\n                    raise\n                if store_sample_history:", "C11.cut"),
     M("min_step not checkpointed", _B, "state = self.build_checkpoint_state(\n                samples, iterations, beta, min_step=min_step\n            )", "state = self.build_checkpoint_state(samples, iterations, beta)", "C11.state"),
@@ -817,6 +865,8 @@ MUTANTS += [
     M("history shallow-copied into the checkpoint", _B, "history_copy = copy.deepcopy(self.history)", "history_copy = copy.copy(self.history)", "C11.snapshot"),
 ]
 NEUTRALS = [
+    M("flow preconditioning caches the (data-independent) dimension", "src/aspire/transforms.py", "self.flow = self._FlowClass(\n            dims=len(self.parameters),",
+      "if getattr(self, \"_dims\", None) is None:\n            self._dims = len(self.parameters)\n        self.flow = self._FlowClass(\n            dims=self._dims,"),
     M("interrupt handler around the mutation step that only logs", _B, "samples = self.mutate(samples, beta)\n                if store_sample_history:",
       "try:\n                    samples = self.mutate(samples, beta)\n                except KeyboardInterrupt:\n                    logger.warning(\"interrupted\")\n                    raise\n                if store_sample_history:"),
     M("payload call with keywords", _B, "state = self.build_checkpoint_state(\n                samples, iterations, beta, min_step=min_step\n            )", "state = self.build_checkpoint_state(\n                samples=samples, iteration=iterations, beta=beta, min_step=min_step\n            )"),
